@@ -175,6 +175,22 @@ def tr_expr(e, cx):
             return "(Z.shiftl %s %s)" % (l, r), "int"
         if isinstance(e.op, ast.Pow):
             return "(%s ^ %s)" % (l, r), "int"
+        if isinstance(e.op, (ast.FloorDiv, ast.Mod)):
+            # Python's // and % on ints round towards minus infinity / take the divisor's sign, like Z.div / Z.modulo.
+            # A divisor that is a constant power of two is rendered as the shift it equals (x // 2**k = x >> k for
+            # every int x), so that `>> k`, `// 2**k` and `// 131072` are one and the same generated term.
+            try:
+                d = const_eval(e.right, {k: v for k, v in cx.consts.items() if isinstance(v, int)})
+            except Untranslatable:
+                d = None
+            if isinstance(d, int) and not isinstance(d, bool) and d > 0 and d & (d - 1) == 0:
+                k = d.bit_length() - 1
+                if isinstance(e.op, ast.FloorDiv):
+                    return "(Z.shiftr %s %s)" % (l, zlit(k)), "int"
+                return "(Z.land %s %s)" % (l, zlit(d - 1)), "int"
+            if isinstance(e.op, ast.FloorDiv):
+                return "(%s / %s)" % (l, r), "int"
+            return "(%s mod %s)" % (l, r), "int"
         fail(e, "operator")
     if isinstance(e, ast.UnaryOp):
         v, t = tr_expr(e.operand, cx)
